@@ -112,4 +112,17 @@ Proof.
   inversion H; subst. exists t, r. rewrite Hcn. split; reflexivity.
 Qed.
 
+(* the guard of a send: the value goes out only if there is room *)
+Lemma step_worker_room s w ch s' eof a k v rest :
+  step_worker c s w ch = Some s' -> wc (ws s w) = WRun eof (a :: rest) -> sends_on a k v ->
+  (has_room (outs s k) = true /\ cclosed (outs s k) = false /\
+   s' = set_w (set_out s k (push (outs s k) (w, v))) w (with_ctl (ws s w) (WRun eof rest))) \/
+  s' = set_panic s \/ s' = finish c s w (a :: rest).
+Proof.
+  intros H Hc [->| ->]; unfold step_worker in H; rewrite Hc in H.
+  - destruct (has_room (outs s k)) eqn:Er, (cclosed (outs s k)) eqn:Ecl, (cancelled s), ch;
+      simpl in H; inversion H; auto.
+  - destruct (cclosed (outs s k)) eqn:Ecl, (has_room (outs s k)) eqn:Er; simpl in H; inversion H; auto.
+Qed.
+
 End Cases.
